@@ -225,6 +225,10 @@ func (fs *Store) VisitMailboxes(f func([]storage.Message) (cont bool)) error {
 	// Loop over level 1 directories.
 	for _, name1 := range names1 {
 		names2, err := readDirNames(fs.mailPath, name1)
+		if os.IsNotExist(err) {
+			// Removed concurrently, its last mailbox was emptied.
+			continue
+		}
 		if err != nil {
 			return err
 		}
@@ -232,6 +236,10 @@ func (fs *Store) VisitMailboxes(f func([]storage.Message) (cont bool)) error {
 		// Loop over level 2 directories.
 		for _, name2 := range names2 {
 			names3, err := readDirNames(fs.mailPath, name1, name2)
+			if os.IsNotExist(err) {
+				// Removed concurrently, its last mailbox was emptied.
+				continue
+			}
 			if err != nil {
 				return err
 			}
